@@ -586,6 +586,21 @@ pub fn c15(ctx: &Ctx, rep: &mut Report) {
                 let dir = ctx.scratch("replay");
                 judge_cli(rep, "C15", "replay", src, &j.outcome, &dir, 0);
                 judge_cli(rep, "C15", "replay", src, &j.outcome, &dir, 1);
+                if r.get("terminal").and_then(|t| t.as_bool()) == Some(true) && j.judged && !j.outcome.failed() {
+                    let file = dir.join("terminal.fml");
+                    if std::fs::write(&file, src).is_ok() {
+                        let inner = format!("'{}' run '{}'", std::env::current_exe().unwrap().display(), file.display());
+                        let t = super::super::cli::run(super::super::cli::Spec::new(&["-q", "-e", "-c", &inner, "/dev/null"]).exe(std::path::Path::new("/usr/bin/script")));
+                        rep.evaluations += 1;
+                        if !t.timed_out && t.spawn_error.is_none() {
+                            rep.conclusive += 1;
+                            let want_tty = j.outcome.out.replace('\n', "\r\n");
+                            if !t.success() || t.stdout != want_tty.as_bytes() {
+                                rep.violation("C15:cli-format-bytes-terminal", format!("`fml run` with a terminal as stdout: expected {:?}, observed {}", want_tty, t.describe()), r.clone());
+                            }
+                        }
+                    }
+                }
             }
         }
         return;
@@ -662,6 +677,26 @@ pub fn c15(ctx: &Ctx, rep: &mut Report) {
                             rep.conclusive += 1;
                             rep.count("cli_runs", 1);
                             let want = format!("begin\n{}end", expect);
+                            // the same program with a terminal as standard output (`script` provides the
+                            // pseudo-terminal, whose only transformation is LF -> CR LF): print does not
+                            // render anything differently for a terminal
+                            if (i / cli_every) % 2 == 0 && std::path::Path::new("/usr/bin/script").exists() && !src.contains('\'') {
+                                let inner = format!("'{}' run '{}'", std::env::current_exe().unwrap().display(), file.display());
+                                let t = super::super::cli::run(super::super::cli::Spec::new(&["-q", "-e", "-c", &inner, "/dev/null"]).exe(std::path::Path::new("/usr/bin/script")));
+                                rep.evaluations += 1;
+                                if !t.timed_out && t.spawn_error.is_none() {
+                                    rep.conclusive += 1;
+                                    rep.count("cli_runs_on_a_terminal", 1);
+                                    let want_tty = want.replace('\n', "\r\n");
+                                    if !t.success() || t.stdout != want_tty.as_bytes() {
+                                        rep.violation(
+                                            "C15:cli-format-bytes-terminal",
+                                            format!("`fml run` with a terminal as stdout, format literal {:?}: expected {:?} (LF sent as CR LF by the terminal), observed {}", f2, want_tty, t.describe()),
+                                            json!({"check":"C15","src":src,"terminal":true}),
+                                        );
+                                    }
+                                }
+                            }
                             if !run.success() || run.stdout != want.as_bytes() {
                                 rep.violation(
                                     "C15:cli-format-bytes",
@@ -1223,6 +1258,11 @@ pub fn c13(ctx: &Ctx, rep: &mut Report) {
             if let Ok(ast) = real::parse(src) {
                 let mut rng = ctx.rng("replay", 0);
                 let j = judge(rep, "C13", "replay", &ast, src, &mut rng, JudgeOpts::full());
+                if r.get("via").and_then(|v| v.as_str()) == Some("cli") {
+                    let dir = ctx.scratch("replay");
+                    judge_cli(rep, "C13", "replay", src, &j.outcome, &dir, 0);
+                    judge_cli(rep, "C13", "replay", src, &j.outcome, &dir, 1);
+                }
                 if let Some(pred) = r.get("predicted").and_then(|p| p.as_array()) {
                     let pred: Vec<String> = pred.iter().filter_map(|x| x.as_str().map(|s| s.to_owned())).collect();
                     let p = real::pipeline_from_source(src, cap_for(&j.outcome));
